@@ -57,6 +57,12 @@ func (s *StateDBWrapper) Finish() {
 	for addr, _ := range s.accessedObjAddrs {
 		amt := uint256.MustFromBig(s.StateDB.GetBalance(addr))
 		nonce := s.StateDB.GetNonce(addr)
+		if s.StateDB.HasSuicided(addr) {
+			// the EVM removes a self-destructed account at the end of the transaction:
+			// its nonce and whatever balance it still holds are gone.
+			amt = uint256.NewInt(0)
+			nonce = 0
+		}
 
 		acct := s.acctHandler.FindOrNewAccount(addr[:], s.exec)
 		acct.SetBalance(amt)
